@@ -377,7 +377,11 @@ def compare_lines(lines, model_stream, res, label, ignore_oracle=False, only_tag
             res.broken.append(("correspondence", label, f"model driver exit {rc}, {len(mlines)} lines for {len(inputs)} inputs: {mout[-400:]}"))
             return None
         # structural: the property is about which terms exist and which atoms they involve, not about their numbers
-        canon = (lambda t: re.sub(r"\b[0-9a-f]{16}\b", "#", t)) if structural else (lambda t: t)
+        # a refusal is a refusal: which message the code words it with (the harness classifies panics by their text) is not part
+        # of any property, so the kind is dropped on both sides before comparing
+        def drop_kind(t):
+            return re.sub(r"\berr (size|order|length|nobonds|other:\S+)", "err", t)
+        canon = (lambda t: re.sub(r"\b[0-9a-f]{16}\b", "#", drop_kind(t))) if structural else drop_kind
         for i, o, m in zip(inputs, outputs, mlines):
             if canon(o) != canon(m):
                 mism.append((i, o, m))
